@@ -16,6 +16,7 @@ bodies publish their outputs one at a time (Model/CtrlN.lean): the X driver eval
 harness' FIFO runs.
 -/
 import EkwVerif.Lemmas.SchedBound
+import EkwVerif.Lemmas.SchedIdle
 
 namespace EkwVerif.Ctrl
 
@@ -120,6 +121,25 @@ only). Proof: a potential that never increases and drops at every dispatch and e
 theorem c03_bounded_partial (f : Sem) (j : Job) (cl : Cluster) (cm : Comps) (wf : WF j cl) (wfc : WFC j cm)
     (feas : Feasible j cl) (x : SysX) (hr : ReachableFifo f j cl cm x) : x.sys.rounds ≤ roundBound j :=
   sB_rounds_bounded f j cl cm wf wfc feas x hr
+
+/-- **No idle wait — under FIFO delivery.** Whenever the controller blocks in `recv_events` (phase `waiting`), an event is
+already on its way or an executor can move (a queued task whose inputs are on its host, or a commanded transfer/fetch);
+every executor step strictly decreases |queued| + |outstanding|, so an event eventually arrives: the controller never waits
+with nothing outstanding. The disjunct "a task is ongoing" (`c03_ongoing_is_live`) and the fetch pipeline of an announced
+requested output hold for ANY event order; FIFO is needed only when nothing is ongoing and a requested output has not even
+been announced (known finding C03-last-output-overtakes). -/
+theorem c03_no_idle_wait_partial (f : Sem) (j : Job) (cl : Cluster) (cm : Comps) (wf : WF j cl) (wfc : WFC j cm)
+    (feas : Feasible j cl) (x : SysX) (hr : ReachableFifo f j cl cm x) (hw : x.sys.phase = .waiting) :
+    x.sys.env.pending ≠ [] ∨ ∃ es e', envStep f j x.sys.env es = some e' :=
+  sI_no_idle_wait f j cl cm wf wfc feas x hr hw
+
+/-- **An ongoing task is live — any event order.** While the controller has a task in flight and its inbox is empty, some
+event is pending or some executor step is enabled: the completion notice of a task that ran is between executor and controller,
+a queued task either can run or has its missing input in an outstanding transfer. -/
+theorem c03_ongoing_is_live (f : Sem) (j : Job) (cl : Cluster) (wf : WF j cl) (s : Sys) (hr : Reachable f j cl s)
+    (hib : s.inbox = []) (ho : s.ctl.ongoing ≠ []) :
+    s.env.pending ≠ [] ∨ ∃ es e', envStep f j s.env es = some e' :=
+  sI_ongoing_live f j cl wf s hr hib ho
 
 /-- the FIFO hypothesis is satisfiable by more than the trivial discipline: any batch that is a prefix of all pending
 events satisfies it, and so does a batch that lets another task's notice overtake (non-vacuity of the generalisation) -/
